@@ -6,6 +6,7 @@ CONSTANTS
   MaxChan = 3
   Labels = {1}
   Chans = {0, 1, 2}
+  Edits = FALSE
   AutoRule = "max"
 INVARIANT InvConforms
 INVARIANT InvAligned
